@@ -12,6 +12,10 @@
 //	noentropy nonce|keygen|ecdsa|keystore
 //	      crypto/rand.Reader is replaced by a reader that fails: the producer must return an error
 //	      ("error"); "produced" means it fell back to some other source.
+//	entropy nonce|keygen|ecdsa|ecies|keystore
+//	      positive characterisation of "from the OS source": with crypto/rand.Reader replaced by a constant
+//	      stream two uses give the same secret and another stream another secret; with a counting reader every
+//	      use reads at least 32 (48) bytes.  Output: tracks | other-source | ignores-stream | short.
 //	keystore <n>
 //	      create a keystore, then try to recover its master key from the plain-text
 //	      IV by trying the nanoseconds around the creation time as math/rand seeds:
@@ -24,6 +28,7 @@ import (
 	"crypto/sha256"
 	"errors"
 	"fmt"
+	"io"
 	"math/big"
 	"math/rand"
 	"os"
@@ -173,6 +178,8 @@ func exec(t []string) string {
 			panic("harness: unknown noentropy target " + t[1])
 		}
 		return "produced"
+	case "entropy":
+		return entropyOp(t[1])
 	case "keystore":
 		pw := []byte("password-" + t[1])
 		crypto.ToAesKey(pw) // warm up
@@ -243,6 +250,113 @@ func exec(t []string) string {
 
 var lastDetail string
 
+// ---- positive characterisation: the secret is a function of the OS stream, and enough of it is read per use
+
+type constReader struct{ b byte }
+
+func (r constReader) Read(p []byte) (int, error) {
+	for i := range p {
+		p[i] = r.b
+	}
+	return len(p), nil
+}
+
+type countingReader struct {
+	r io.Reader
+	n int
+}
+
+func (c *countingReader) Read(p []byte) (int, error) {
+	n, err := c.r.Read(p)
+	c.n += n
+	return n, err
+}
+
+// produce runs one secret producer and returns the secret-dependent bytes it produced.
+func produce(what string) ([]byte, error) {
+	key := sha256.Sum256([]byte("c38 entropy key"))
+	switch what {
+	case "nonce":
+		d := new(big.Int).SetBytes(key[:])
+		d.Mod(d, crypto.N)
+		var m [32]byte
+		sig, err := crypto.AggregateSignatures([]*big.Int{d}, m)
+		return sig[:32], err // R = k0*G
+	case "keygen":
+		k, _, err := crypto.GenerateKeyPair()
+		return k, err
+	case "ecdsa":
+		sig, err := crypto.Sign(key[:], []byte("same message"))
+		if err != nil {
+			return nil, err
+		}
+		return sig[:32], nil // r = x(kG)
+	case "ecies":
+		pub := ecdsaPub(key[:])
+		return crypto.Encrypt(pub, []byte("same message"))
+	case "keystore":
+		ksSeq++
+		p := filepath.Join(tmp(), fmt.Sprintf("keystore%d.dat", ksSeq))
+		os.Remove(p)
+		c := account.NewClient(p, []byte("pw"), true)
+		if c == nil {
+			return nil, errors.New("NewClient failed")
+		}
+		iv, _ := c.LoadStoredData("IV")
+		mk, _ := c.LoadStoredData("MasterKey")
+		return append(iv, mk...), nil
+	}
+	panic("harness: unknown producer " + what)
+}
+
+func ecdsaPub(priv []byte) *crypto.PublicKey {
+	x, y := crypto.DefaultCurve.ScalarBaseMult(priv)
+	return &crypto.PublicKey{X: x, Y: y}
+}
+
+// minimum number of bytes of the OS source one use must consume
+var minEntropy = map[string]int{"nonce": 32, "keygen": 32, "ecdsa": 32, "ecies": 48, "keystore": 48}
+
+// entropyOp: (1) with crypto/rand.Reader replaced by a constant stream, two uses (separated in time and by a
+// re-seeding of the global math/rand generator) must produce the same secret, and a different stream a different
+// one: the secret is a function of the OS stream and of nothing else that varies; (2) with a counting reader
+// around the real source, every use — the first and the later ones — must read at least minEntropy bytes.
+func entropyOp(what string) string {
+	saved := crand.Reader
+	defer func() { crand.Reader = saved }()
+	crand.Reader = constReader{0x5A}
+	a1, e1 := produce(what)
+	time.Sleep(2 * time.Millisecond)
+	rand.Seed(time.Now().UnixNano())
+	a2, e2 := produce(what)
+	crand.Reader = constReader{0x3C}
+	b1, e3 := produce(what)
+	if e1 != nil || e2 != nil || e3 != nil {
+		return "err produce"
+	}
+	if !bytes.Equal(a1, a2) {
+		lastDetail = fmt.Sprintf("same OS stream, two uses: %x… vs %x…", a1[:8], a2[:8])
+		return "other-source"
+	}
+	if bytes.Equal(a1, b1) {
+		lastDetail = "different OS streams, same secret"
+		return "ignores-stream"
+	}
+	cr := &countingReader{r: saved}
+	crand.Reader = cr
+	for use := 1; use <= 3; use++ {
+		before := cr.n
+		if _, err := produce(what); err != nil {
+			return "err produce"
+		}
+		if got := cr.n - before; got < minEntropy[what] {
+			lastDetail = fmt.Sprintf("use %d read %d bytes of crypto/rand.Reader, at least %d expected", use, got, minEntropy[what])
+			return "short"
+		}
+	}
+	return "tracks"
+}
+
 type failingReader struct{}
 
 func (failingReader) Read([]byte) (int, error) { return 0, errors.New("entropy source unavailable") }
@@ -259,6 +373,9 @@ func oracle(t []string, out string) *hx.Violation {
 		}[t[0]]
 		return &hx.Violation{Kind: "secret-from-seedable-source:" + t[0],
 			Detail: "after rand.Seed(" + t[1] + ") twice: " + what}
+	case "other-source", "ignores-stream", "short":
+		return &hx.Violation{Kind: "secret-not-from-os-entropy:" + t[1] + ":" + out,
+			Detail: t[1] + ": " + lastDetail}
 	case "produced":
 		return &hx.Violation{Kind: "secret-produced-without-entropy:" + t[1],
 			Detail: "with crypto/rand.Reader failing, " + t[1] + " still produced a secret instead of returning an error (fallback to a non-OS source)"}
@@ -286,6 +403,9 @@ func gen(g *hx.Gen) {
 	}
 	for _, w := range []string{"nonce", "keygen", "ecdsa", "keystore"} {
 		g.Emit("noentropy %s", w)
+	}
+	for _, w := range []string{"nonce", "keygen", "ecdsa", "ecies", "keystore"} {
+		g.Emit("entropy %s", w)
 	}
 	for i := 0; i < g.N(1, 3); i++ {
 		g.Emit("keystore %d", i)
